@@ -398,6 +398,8 @@ def run(ctx, P, rows, findings, info):
                 continue
             by_host.setdefault(json.dumps(h, sort_keys=True), []).append(i)
         if len(by_host) > 1:
+            for k in by_host:    # the shortest spelling of every host class first
+                by_host[k].sort(key=lambda i: (len(fmt_call(res[i])), fmt_call(res[i])))
             ks = sorted(by_host, key=lambda k: (len(fmt_call(res[by_host[k][0]])), fmt_call(res[by_host[k][0]])))
             a, b = by_host[ks[0]][0], by_host[ks[1]][0]
             ha, hb = json.loads(ks[0]), json.loads(ks[1])
